@@ -2164,9 +2164,12 @@ func (c *Conn) handleApplicationDataRecord(
 	prepared incomingPacketState,
 ) (bool, packetOutcome, error) {
 	if prepared.header.Epoch == 0 {
-		return false, packetOutcome{
-			responseAlert: &alert.Alert{Level: alert.Fatal, Description: alert.UnexpectedMessage},
-		}, dtlserrors.ErrApplicationDataEpochZero
+		// Application data is never sent unprotected. Nothing vouches for
+		// such a record: it is refused silently rather than answered with an
+		// alert that would let anybody end the session.
+		c.log.Debug("discarded unprotected application data")
+
+		return false, packetOutcome{}, nil
 	}
 
 	isLatestSeqNum := prepared.markPacketAsValid()
